@@ -38,6 +38,22 @@ fn main() {
             sets.push((vec![a.clone(), b.clone()], false, false));
         }
     }
+    // every colliding ordered pair over P1 with a declaration of the *other* kind on the same
+    // node between the two (a collision check that only compares neighbours must not be fooled)
+    for x in &p1 {
+        for y in &p1 {
+            let (dx, dy) = (parse_decl(x), parse_decl(y));
+            if dx.query != dy.query || mc::prog::spec_collision(&[dx.clone(), dy.clone()]).is_none() {
+                continue;
+            }
+            for z in &p1 {
+                let dz = parse_decl(z);
+                if dz.query != dx.query && !mc::prog::reachable_paths(&dz).is_disjoint(&mc::prog::reachable_paths(&dx)) {
+                    sets.push((vec![x.clone(), z.clone(), y.clone()], false, false));
+                }
+            }
+        }
+    }
     // ordered triples over P1 (thorough)
     if thorough {
         for a in &p1 {
@@ -55,6 +71,10 @@ fn main() {
     for (s, e) in [(false, false), (true, false), (false, true), (true, true)] {
         sets.push((rich.clone(), s, e));
         sets.push((repo.clone(), s, e));
+        // a user declaration that meets a built-in one, with the other kind on the same node declared too
+        for pair in [["SYSTem:ERRor?", "SYSTem:ERRor"], ["SYSTem:ERRor", "SYSTem:ERRor?"], ["SYSTem:ERRor:COUNt", "SYSTem:ERRor:COUNt?"], ["SYSTem:VERSion", "SYSTem:VERSion?"]] {
+            sets.push((pair.iter().map(|x| x.to_string()).collect(), s, e));
+        }
         for u in ["SYSTem:ERRor?", "SYST:ERR:NEXT?", "SYSTem:ERRor:COUNt?", "SYSTem:VERSion?", "SYSTem:VERSion", "SYSTem:ERRor", "SYSTem:ERRor:[NEXT]?", "[SYSTem]:ERRor:COUNt?"] {
             sets.push((vec![u.to_string()], s, e));
         }
